@@ -789,7 +789,8 @@ func (p *BinaryProtocol) ReadString(copy bool) (value string, err error) {
 			Len: int(size),
 			Cap: int(size),
 		})))
-	} else {
+	} else if size > 0 {
+		// NOTICE: an empty string must not point to (one past) the end of the buffer
 		v := (*rt.GoString)(unsafe.Pointer(&value))
 		v.Ptr = rt.IndexPtr(*(*unsafe.Pointer)(unsafe.Pointer(&p.Buf)), byteTypeSize, p.Read)
 		v.Len = int(size)
@@ -816,10 +817,14 @@ func (p *BinaryProtocol) ReadBinary(copyBytes bool) (value []byte, err error) {
 			Len: int(size),
 			Cap: int(size),
 		})))
-	} else {
-		v := (*rt.GoString)(unsafe.Pointer(&value))
+	} else if size > 0 {
+		// NOTICE: the slice needs a capacity, and an empty one must not point to (one past) the end of the buffer
+		v := (*rt.GoSlice)(unsafe.Pointer(&value))
 		v.Ptr = rt.IndexPtr(*(*unsafe.Pointer)(unsafe.Pointer(&p.Buf)), byteTypeSize, p.Read)
 		v.Len = int(size)
+		v.Cap = int(size)
+	} else {
+		value = []byte{}
 	}
 
 	p.Read += int(size)
